@@ -83,7 +83,8 @@ EXPECTED_PROBES = {
     'C06': ['row_table', 'unknown_channel', 'empty_spike_list', 'waveform_route', 'tf_row_table',
             'unsorted_spikes', 'same_table_densified_twice', 'very_large_unknown_channel_id',
             'minus_one_inside_column_rows', 'waveform_route_request_with_absent_spikes',
-            'waveform_route_two_spikes', 'waveform_route_spike_storing_other_channels'],
+            'waveform_route_two_spikes', 'waveform_route_spike_storing_other_channels',
+            'waveform_route_unsorted_request'],
     'C08': ['multi_template_cluster', 'empty_id', 'undo', 'dirty_reload', 'highest_template_unused',
             'single_spike_cluster', 'tie_in_spike_counts'],
     'C09': ['empty_highest_id', 'curated', 'depths', 'zero_positive_part', 'batch_boundary_size'],
@@ -139,6 +140,10 @@ def gen(rng, prop, tier):
     ops = []
     p = cfg['present']
     ns, nt, nc = cfg['ns'], cfg['nt'], cfg['nc']
+    if prop != 'C04' and cfg['dtypes'].get('amps') == 'float16':
+        # half-precision amplitude files only where values are compared with the file (C04): sums
+        # and means in half precision depend on the evaluation order far beyond any tolerance
+        cfg['dtypes']['amps'] = 'float32'
     if prop == 'C04':
         if cfg['names']['times'] == 'alf' and not p.get('samples_file') and rng.random() < 0.35:
             p['raw'] = False
@@ -151,6 +156,8 @@ def gen(rng, prop, tier):
             cfg['raw']['symlinked'] = True
         if rng.random() < 0.08:
             cfg['dir_name'] = rng.choice(['mouse[12]', 'run*', 'a?b', 'x[!y]z', 'probe{0,1}'])
+        if rng.random() < 0.08:
+            cfg['params_symlink'] = True
         if any(po['kind'] == 'nan_column' for po in cfg['poison']) and rng.random() < 0.6:
             # ... in a curated dataset: the loader computes cluster waveforms from the templates
             cfg['curation'] = world.gen_curation_ops(rng, rng.randint(1, 3))
@@ -188,13 +195,19 @@ def gen(rng, prop, tier):
     elif prop == 'C05':
         if not p['wm'] and rng.random() < 0.3:
             cfg['wmi_only'] = True
+        if not cfg['sparse'] and nc >= 3 and rng.random() < 0.1:
+            # a dead channel: NaN over the whole waveform of one template (whitened requests only:
+            # unwhitening mixes the NaN into every channel)
+            cfg['poison'].append({'name': 'tmpl', 'kind': 'nan_column', 't': rng.randrange(nt),
+                                  'ch': rng.randrange(nc), 'val': 'nan'})
         ops = [{'op': 'load'}]
         for _ in range(rng.randint(1, 10)):
             r = rng.random()
             if r < 0.72:
                 ops.append(_gen_template_query(rng, cfg))
                 if cfg['poison'] and rng.random() < 0.3:
-                    ops[-1]['t'] = rng.choice(cfg['poison'][0]['ids'])
+                    po = rng.choice(cfg['poison'])
+                    ops[-1]['t'] = rng.choice(po['ids']) if 'ids' in po else po['t']
                     ops[-1]['chans'] = None
             elif r < 0.87:
                 ops.append({'op': 'q_cluster_channels', 'c': rng.randrange(nt)})
@@ -269,6 +282,8 @@ def gen(rng, prop, tier):
                 ops.append({'op': 'dirty_reload'})
     elif prop == 'C09':
         p['amps'] = True
+        if not p['wm'] and rng.random() < 0.25:
+            cfg['wmi_only'] = True
         if rng.random() < (0.02 if big else 0.006):
             # get_depths walks the spikes in batches of 50000: sizes around the batch bound
             cfg['ns'] = ns = rng.choice([50000, 50001, 50002, 100001])
@@ -342,7 +357,7 @@ def gen(rng, prop, tier):
             # the assignments live under their ALF name only
             cfg['names']['sclusters'] = 'alf'
             p['sclusters'] = True
-        if prop == 'C03' and cfg['raw'] and cfg['raw']['dtype'] in ('float32', 'float64') \
+        if cfg['raw'] and cfg['raw']['dtype'] in ('float32', 'float64') \
                 and rng.random() < 0.25:
             cfg['raw']['nonfinite'] = [[rng.random(), rng.randrange(64)]
                                        for _ in range(rng.randint(1, 4))]
@@ -610,6 +625,14 @@ class DatasetWorld(object):
         else:
             self.dir = base / 'dataset'
         self.params = world.write_dataset(cfg, self.g, self.dir)
+        if cfg.get('params_symlink'):
+            # the parameter file is shared: params.py is a symbolic link to a file kept in
+            # another folder (which holds nothing else)
+            shared = base / 'shared_params'
+            shared.mkdir(exist_ok=True)
+            os.replace(str(self.params), str(shared / 'params_ks.py'))
+            os.symlink(str(shared / 'params_ks.py'), str(self.params))
+            ctx.probe('params_file_is_a_symbolic_link')
         self.model = None
         self.retired = []
         ctx.on_cleanup(self.close_all)
@@ -1036,6 +1059,9 @@ class DatasetWorld(object):
                       and not np.any(np.asarray(b.amplitude)), 'all-zero-template-record',
                       lambda: {'t': t, 'channels': ch, 'shape': list(W.shape)})
             return
+        if any(t == t_ for t_, _ in getattr(self.g, 'nan_columns', [])):
+            op = dict(op, unwhiten=False, chans=None)
+            ctx.probe('template_with_nan_channel')
         chans = None if op['chans'] is None else np.array(op['chans'], dtype=np.int64)
         kw = {}
         if op['thr'] is not None:
@@ -1078,7 +1104,7 @@ class DatasetWorld(object):
             return
         ctx.probe('dense')
         full = R.template_full(t, op['unwhiten'])
-        scale = max(float(np.abs(full).max()), 1e-300)
+        scale = max(float(np.nanmax(np.abs(full))) if np.isfinite(full).any() else 0.0, 1e-300)
         if chans is not None:
             ctx.probe('explicit_channels')
             ctx.check(ch == [int(x) for x in chans], 'explicit-channel-list-not-echoed',
@@ -1145,6 +1171,8 @@ class DatasetWorld(object):
         st = self.g.stemplates[spikes]
         tids, counts = np.unique(st, return_counts=True)
         best = [int(t) for t in tids[counts == counts.max()]]
+        if any(int(t) == t_ for t in tids for t_, _ in getattr(self.g, 'nan_columns', [])):
+            return      # (unwhitened by default: a NaN channel spreads to every channel)
         got = ctx.real('get_cluster_channels', m.get_cluster_channels, c, owners=('C05',))
         cands = [[int(x) for x in m.get_template(t).channel_ids] for t in best]
         ctx.op('q_cluster_channels', changes_state=False)
@@ -1284,12 +1312,18 @@ class DatasetWorld(object):
             extra = absent[::max(1, len(absent) // 3)][:3]
             spikes = np.array(sorted(stored + extra), dtype=np.int64)
             ctx.probe('waveform_route_request_with_absent_spikes')
+        unsorted = len(spikes) == len(stored) and len(stored) >= 3 and (op['t'] + op['k']) % 3 == 2
+        if unsorted:
+            # every requested spike is in the store and the request is NOT in increasing order
+            spikes = spikes[::-1].copy() if op['k'] % 2 else np.roll(spikes, 1)
+            ctx.probe('waveform_route_unsorted_request')
         got = ctx.real('get_features', m.get_features, spikes, np.array(chans), owners=('C06',))
         ctx.op('q_features_wf', changes_state=False)
         ctx.probe('waveform_route')
         ctx.check(got is not None and got.shape == (len(spikes), len(chans), 3),
                   'waveform-features-shape', lambda: {'got': _desc(got)})
-        got = np.asarray(got)[np.searchsorted(spikes, stored)]
+        pos_of = {int(s_): i_ for i_, s_ in enumerate(spikes)}
+        got = np.asarray(got)[[pos_of[s_] for s_ in stored]]
         # the waveforms the features must be projections of: windows x factor on those channels
         W = np.stack([window_ref(self.A, g.samples[s], self.cfg['nsw'], chans)
                       for s in stored]).astype(np.float64) * self.store_factor
@@ -1474,7 +1508,7 @@ class DatasetWorld(object):
             got = ctx.real(name, lambda: getattr(m, name), owners=('C09',))
             u = np.unique(vec)
             exp = np.array([amps[vec == k].mean() for k in u])
-            atol = 1e-5 if cfg['dtypes'].get('amps') == 'float32' else 1e-9
+            atol = 1e-5 if np.dtype(cfg['dtypes'].get('amps', 'float64')).itemsize <= 4 else 1e-9
             ctx.check(ref.close(got, exp, atol), name, lambda: {'got': _desc(got),
                                                                 'expected': _desc(exp)})
         # peak channels and durations on the stored arrays
